@@ -100,9 +100,11 @@ class PinchProblem:
             The loaded input structure.
         """
         # A newly loaded problem invalidates results cached for the previous one,
-        # and does not inherit the project name derived from a previously loaded file
+        # and does not inherit the project name derived from a previously loaded file;
+        # the previous problem goes too, so that a load that fails leaves no mixture behind
         self._results = None
         self._master_zone = None
+        self._problem_data = None
         self._project_name = type(self)._project_name
 
         if isinstance(source, TargetInput):
